@@ -56,6 +56,7 @@ func (fr *frame) exec(instr ssa.Instruction, st *State) {
 		}
 		fx.storeVal(st, p, g.zero(t))
 		fr.foldWF(st, p.HT, p.Addr)
+		fr.foldPos(st, p.HT, p.Addr)
 		fr.vals[x] = p
 		fx.noteObj(p)
 		fx.noteNodeRefs(p, x.Type())
@@ -74,6 +75,7 @@ func (fr *frame) exec(instr ssa.Instruction, st *State) {
 			s.oblig("nil", "", fr.safetyTags(), st.reach, not(eq(p.Addr, "0")), pos, "nil dereference: "+x.String())
 		}
 		fr.unfoldWF(st, p)
+		fr.unfoldPos(st, p)
 		stt := structOf(p.Elem)
 		f := stt.Field(x.Field)
 		fr.vals[x] = PtrV{Addr: p.Addr, HT: p.HT, Path: p.Path + "." + f.Name(), Elem: f.Type(), Local: p.Local}
@@ -192,6 +194,7 @@ func (fr *frame) exec(instr ssa.Instruction, st *State) {
 			fr.checkFrame(st, p, pos)
 			fx.storeVal(st, p, v)
 			fr.foldWF(st, p.HT, p.Addr)
+			fr.foldPos(st, p.HT, p.Addr)
 		case ElemPtrV:
 			fr.storeElem(st, p, v)
 		default:
